@@ -166,8 +166,10 @@ other("C09", "right after the disparity step a pixel with a computable cost lies
       "(Vfit / Quadratic.refinement_method and loop_refinement, the C06 obligations, also run here), the median filter puts a pixel between two "
       "valid disparities of its window (C10), filling takes values between valid disparities of the map (C14); frame of cv_masked "
       "proved: masking writes the cost volume and its validity mask only -- not the caller's disparity grids nor the images ("
-      + FRAME_NOTE + "); interval independence of the costs themselves (a two-run property of the cost computation) and "
-      "per-pixel grids:", trusted=FRAME_TRUSTED)
+      + FRAME_NOTE + "); for sad / ssd at pixel precision the end-to-end contract of SadSsd.compute_cost_volume (C02) gives each "
+      "cost as a function of the two images, the pixel, the window and ITS OWN disparity only -- hence independent of which other "
+      "disparities were requested; interval independence for census / zncc / sub-pixel costs (a two-run property) and per-pixel grids:",
+      trusted=FRAME_TRUSTED)
 reg("C10", "proof",
     "median: MedianFilter.median_filter proved for every image size and every odd filter size against the property -- NaN "
     "(invalid) pixels stay NaN, valid pixels closer to an edge than the radius keep their value, every other valid pixel is the "
@@ -196,7 +198,9 @@ other("C13", "criteria.validity_mask (flags of a pixel depend on its column, the
       "functions that process an image in internal blocks are proved position-independent for every image size -- each output pixel "
       "is a function of its own window / cost column only, wherever the 100- or 50-pixel block boundaries fall: "
       "argmin_split / argmax_split (C03), MedianFilter.median_filter and BilateralFilter.filter_bilateral (C10), and they write into "
-      "fresh arrays only (assigns()); dependency cone / crop independence of whole pipelines, float accumulation order:",
+      "fresh arrays only (assigns()); for sad / ssd at pixel precision the end-to-end contract of SadSsd.compute_cost_volume (C02) "
+      "makes each cost a function of the samples inside the pixel's window box only; dependency cone / crop independence of whole "
+      "pipelines, float accumulation order:",
       trusted=["assumed contracts on np.argmin/np.argmax/np.array_split/np.nanmedian/as_strided as listed under C03 and C10"])
 other("C15", "frames proved: FixedZoomPyramid.disparity_range, prepare_pyramid and fill_nodata_image leave the images and the "
       "coarser disparity dataset untouched; run_multiscale only rebinds the machine's fields and pops its own pyramids ("
